@@ -447,7 +447,12 @@ def run_check(chk, argv):
                 model_answers[i] = o
     known_hit, violations, disagreements = {}, [], []
     distinct = set()
+    harness_errors = []
     for i, (case, obs, f) in enumerate(results):
+        if f is not None and isinstance(obs, dict) and "harness_exception" in obs:
+            # the harness itself could not run this case on this tree (an interface it drives has changed, or the model/translator
+            # has nothing for it): that is a broken tie, not an input on which the property fails
+            harness_errors.append((case, obs)); continue
         if f is not None:
             key = chk.finding_key(case, obs, f)
             kf = findings.match(P, key)
@@ -461,6 +466,8 @@ def run_check(chk, argv):
             iv = chk.impl_view(case, obs)
             if canon(mo) != canon(iv):
                 disagreements.append((case, iv, mo))
+    if harness_errors:
+        broken.append(("harness", "%d of %d cases could not be run by the harness; first: %s" % (len(harness_errors), len(cases), harness_errors[0][1]["harness_exception"][:300])))
     # 5 failing-input search when something is broken and no failing input is in hand
     searched = 0
     if (broken or disagreements) and not violations:
@@ -474,7 +481,7 @@ def run_check(chk, argv):
             if searched >= budget: break
             searched += 1
             obs, f = chk.fails(c)
-            if f is not None:
+            if f is not None and not (isinstance(obs, dict) and "harness_exception" in obs):
                 key = chk.finding_key(c, obs, f)
                 if findings.match(P, key): continue
                 violations.append((key, c, obs, f)); break
